@@ -2,7 +2,8 @@
 // diagnostic callback (apps/m17-demod.cpp included with main renamed), fed one sample stream under the
 // sanitizers.  After EVERY sample the public members are checked against their documented ranges:
 //   demod.sample_index <= 9, demod.framer.index_ < 368, demod.clock_recovery.sample_index_ in [0, 9],
-//   demod.correlator.buffer_pos_ < 80.
+//   demod.correlator.buffer_pos_ < 80, demod.correlator.prev_buffer_pos_ < 80, demod.sync_sample_index <= 9 and the timing_index_ of the
+//   four sync words <= 9 (the invariants of coq/ImplCorrelator.v's models, proved in Properties_C07.v 8a-8f).
 // usage: c07_rx <file of int16 LE samples> <divisor> <invert 0|1>      x = sample / divisor  (|x| <= 1 required)
 // One stream per process (the demodulator keeps function-local statics).
 #include <codec2/codec2.h>
@@ -54,9 +55,15 @@ int main(int argc, char** argv)
         demod(x);
         ++n;
         if (demod.sample_index > 9 || demod.framer.index_ >= 368 || demod.clock_recovery.sample_index_ < 0
-            || demod.clock_recovery.sample_index_ > 9 || demod.correlator.buffer_pos_ >= 80) {
-            std::printf("RANGE sample=%zu sample_index=%u framer.index_=%zu clock.sample_index_=%d correlator.buffer_pos_=%zu\n", n,
-                        unsigned(demod.sample_index), demod.framer.index_, int(demod.clock_recovery.sample_index_), demod.correlator.buffer_pos_);
+            || demod.clock_recovery.sample_index_ > 9 || demod.correlator.buffer_pos_ >= 80
+            || demod.correlator.prev_buffer_pos_ >= demod.correlator.buffer_.size() || demod.correlator.buffer_pos_ >= demod.correlator.buffer_.size()
+            || demod.sync_sample_index > 9 || demod.preamble_sync.timing_index_ > 9 || demod.lsf_sync.timing_index_ > 9
+            || demod.packet_sync.timing_index_ > 9 || demod.eot_sync.timing_index_ > 9) {
+            std::printf("RANGE sample=%zu sample_index=%u framer.index_=%zu clock.sample_index_=%d correlator.buffer_pos_=%zu prev_buffer_pos_=%zu "
+                        "sync_sample_index=%u timing_index_=%zu,%zu,%zu,%zu\n", n,
+                        unsigned(demod.sample_index), demod.framer.index_, int(demod.clock_recovery.sample_index_), demod.correlator.buffer_pos_,
+                        demod.correlator.prev_buffer_pos_, unsigned(demod.sync_sample_index), demod.preamble_sync.timing_index_,
+                        demod.lsf_sync.timing_index_, demod.packet_sync.timing_index_, demod.eot_sync.timing_index_);
             return 3;
         }
         if (demod.sample_index > max_si) max_si = demod.sample_index;
